@@ -800,3 +800,12 @@ def _nested_blocks():
 
 
 SEMANTIC += _nested_blocks()
+
+
+# nonlocal declarations whose binding is found beyond a class body (class scopes are skipped), with and without a global declaration in the class
+SEMANTIC += ['def a():\n    x = 1\n    class B:\n        global x\n        def c(self):\n            nonlocal x\n',
+             'def a():\n    x = 1\n    class B:\n        def c(self):\n            nonlocal x\n            x = 2\n',
+             'def a():\n    x = 1\n    class B:\n        global x\n        x = 2\n        def c(self):\n            nonlocal x\n            x = 3\n',
+             'def a():\n    x = 1\n    def b():\n        global x\n        def c():\n            nonlocal x\n',
+             'def a():\n    class B:\n        global x\n        def c(self):\n            nonlocal x\n',
+             'def a(x):\n    class B:\n        class D:\n            global x\n            def c(self):\n                def d():\n                    nonlocal x\n']
